@@ -245,6 +245,9 @@ class ReplacementFrontend(ConstrainedFrontend):
         return super()._concrete_constraint(e)
 
     def _add(self, constraints, invalidate_cache=True):
+        # constraints from which a replacement is derived must reach the actual frontend as they are: applying the
+        # replacement to them would turn them into `true` and the fact they state would be lost
+        defining = set()
         if self._auto_replace:
             for c in constraints:
                 # the badass thing here would be to use the *replaced* constraint, but
@@ -260,9 +263,11 @@ class ReplacementFrontend(ConstrainedFrontend):
                         self.add_replacement(
                             c.args[0], claripy.false(), replace=False, promote=True, invalidate_cache=True
                         )
+                        defining.add(id(c))
                     elif rc.op == "__eq__" and rc.args[0].symbolic ^ rc.args[1].symbolic:
                         old, new = rc.args if rc.args[0].symbolic else rc.args[::-1]
                         self.add_replacement(old, new, replace=False, promote=True, invalidate_cache=True)
+                        defining.add(id(c))
                 else:
                     satisfiable, replacements = backends.vsa.constraint_to_si(rc)
                     if not satisfiable:
@@ -278,7 +283,7 @@ class ReplacementFrontend(ConstrainedFrontend):
                         self.add_replacement(old, rold.intersection(new))
 
         added = super()._add(constraints)
-        cr = self._replace_list(added)
+        cr = tuple(c if id(c) in defining else self._replacement(c) for c in added)
         if not self._allow_symbolic and any(c.symbolic for c in cr):
             raise ClaripyFrontendError(
                 "symbolic constraints made it into ReplacementFrontend with allow_symbolic=False"
